@@ -189,11 +189,11 @@ def run_workload(case, d, log, label_child=None):
         import copy
         o2 = open_object(case, path, lines)
         o2.open()
-        twins.append(("second object on the same file", o2))
         try:
             twins.append(("copy.copy of the opened object", copy.copy(obj)))
         except Exception:
             pass
+        twins.append(("second object on the same file", o2))
         for name_, t_ in twins:
             do_reads(t_, case, lines, "parent-" + name_.split()[0], 3, case["seed"] + 11, log)
     kids = []
